@@ -12,7 +12,7 @@ RULE = ('butter_pass: (order 1-4, band/low/high, cut_off as list/tuple/array (a 
         'on implementation outputs (1e-6 / 1e-9 relative). Gain: sinusoids of 2048-4096 samples, frequencies across pass/transition/stop bands, interior samples, '
         '|y_i - |H|^2 x_i| <= 1e-7 amp with tan(pi f dt) values supplied by the harness. remove_poly (Signal method and fns.generic), degrees 0-4, exact rational least squares, 1e-9 relative, '
         'residual orthogonality on the implementation output. add_constant/add_series/add_signal: integer records tolerance 0, float records 1e-12, mismatched length / dt / non-Signal must raise '
-        'SignalProcessingError. running_average widths 1-25 on float- and integer-dtype records of length 1-80, 1e-12 relative; non-trivial = record not constant')
+        'SignalProcessingError; add_constant also on records STORED with an integer dtype (int64/int32/int16 array or a list of python ints; every other add round) with a constant that is not a whole number (multiples of 1/8, tolerance 0). running_average widths 1-25 on float- and integer-dtype records of length 1-80, 1e-12 relative; non-trivial = record not constant')
 TRUSTED = [
     'Coq 8.16.1 kernel + vm_compute',
     'hand-written model coq/model/M_signalops.v; tie = correspondence of this run (model/K_C17.v) and, for butter_pass / add_* / running_average, the source-text tie: translator/py2coq_c17.py (Python ast -> Gallina by symbolic execution, fail closed) with its fixed readings of Python/NumPy (slice index normalisation, slice assignment, broadcasting of +, np.mean, np.ones, kwargs.get, int(np.ceil(np.log2(n))) as Z.log2_up n, int / int as an exact rational)',
@@ -444,6 +444,16 @@ def add_cases(rep, rng, cases, N):
         # add_constant
         c = float(rng.randint(-50, 50)) if exact else rng.uniform(-10, 10)
         emit(0, x, dt, c, [], dt, False, lambda s: s.add_constant(c), 'Signal.add_constant', {'values': list(x), 'dt': dt, 'constant': c}, rtol)
+        if k % 2 == 0:
+            # raw counts: the record is STORED with an integer dtype (int64 / int32 / int16 array, or built from a list of python ints)
+            # and the constant is not a whole number (multiples of 1/8: exact, tolerance 0); 1 in 4 with a whole constant
+            store = rng.choice(['int64', 'int32', 'int16', 'list'])
+            xi_f = gens.int_record(rng, n, amp=rng.choice([20, 300, 5000]))[0]
+            xi = [int(v) for v in xi_f] if store == 'list' else np.array(xi_f).astype(store)
+            assert store == 'list' or xi.dtype.kind == 'i'
+            ci = float(rng.randint(-50, 50)) if rng.random() < 0.25 else rng.choice([-1, 1]) * (rng.randint(0, 40) + rng.choice([0.5, 0.25, 0.75, 0.125, 0.875]))
+            emit(0, xi, dt, ci, [], dt, False, lambda s: s.add_constant(ci), 'Signal.add_constant[int-dtype record]',
+                 {'values': [int(v) for v in xi], 'stored_as': store, 'dt': dt, 'constant': ci}, 0)
         # add_series: equal length, or off by a few / broadcastable length 1 / empty
         m = n if rng.random() < 0.55 else rng.choice([n + 1, max(0, n - 1), 1, 0, 2 * n, n + rng.randint(2, 9)])
         o = rec(m) if m > 0 else np.array([])
@@ -602,8 +612,10 @@ def replay_call(rp):
         s.running_average(a['width'])
         return s.values
     s = eqsig.Signal(np.array(a['values'], dtype=float), a['dt'])
+    if a.get('stored_as'):
+        s = eqsig.Signal([int(v) for v in a['values']] if a['stored_as'] == 'list' else np.array(a['values'], dtype=a['stored_as']), a['dt'])
     try:
-        if fn.endswith('add_constant'):
+        if 'add_constant' in fn:
             s.add_constant(a['constant'])
         elif fn.endswith('add_series'):
             s.add_series(np.array(a['series'], dtype=float))
